@@ -34,7 +34,8 @@ IDENT = re.compile(r"^[A-Za-z_][A-Za-z0-9_]*(\.[A-Za-z_][A-Za-z0-9_]*)*$")
 # how the pinned caller reaches the callee: by name; as a function-valued argument of another pinned function
 # (bare, or nested in a list / dictionary argument); through a partial application; through a batch
 SHAPES = ["direct", "fnarg", "fnarg_nested", "partial", "batch"]
-EVOLUTIONS = ["unchanged", "edited", "removed", "renamed", "plain", "reclustered", "bumped", "edited_twice", "bumped_odd"]
+EVOLUTIONS = ["unchanged", "edited", "removed", "renamed", "plain", "reclustered", "bumped", "edited_twice", "bumped_odd",
+              "reclustered_same_version"]
 ODD_VERSIONS = ["a::b", "1:2#3", "1.link", "x#y", "v=1+2", "@", ":", "1.0-rc.1"]
 
 
@@ -272,7 +273,7 @@ def run_store(case, out, fail):
 # ---------------------------------------------------------------- evolutions
 def evo_module(cluster, stage, evolution, shape="direct", oddi=0):
     callee_v1 = '@m.memento_function(cluster=CL%s)\ndef callee(x):\n    REC.hit("callee", x)\n    return x + 1\n'
-    ver1 = ', version="1"' if evolution == "bumped" else ""
+    ver1 = ', version="1"' if evolution in ("bumped", "reclustered_same_version") else ""
     if evolution == "bumped_odd":  # an explicit version with characters that mean something in qualified names / file names
         odd = ODD_VERSIONS[oddi % len(ODD_VERSIONS)]
         ver1 = ', version=%r' % odd
@@ -290,6 +291,8 @@ def evo_module(cluster, stage, evolution, shape="direct", oddi=0):
         callee = 'def callee(x):\n    return x + 1\n'
     elif evolution == "reclustered":
         callee = callee_v1.replace("cluster=CL%s", 'cluster="elsewhere"%s') % ""
+    elif evolution == "reclustered_same_version":  # moved to another cluster, its explicit version kept
+        callee = callee_v1.replace("cluster=CL%s", 'cluster="elsewhere"%s') % ', version="1"'
     elif evolution == "bumped":
         callee = callee_v1 % ', version="2"'
     elif evolution == "bumped_odd":
@@ -420,10 +423,16 @@ def run_evolve(case, out, fail):
                 if mm is None:
                     fail("an entry whose own version is current is not found by memento()", "%s stage %d" % (label, stage))
                 else:
-                    gone = evolution != "unchanged"
+                    # (a function found again under its module, name and version counts as existing wherever it lives
+                    # now - the repository's own tests say so: moved to another cluster with its explicit version kept,
+                    # it is not "gone")
+                    gone = evolution not in ("unchanged", "reclustered_same_version")
                     first_mem = first.get("memento", [None, None, None])[2] or {}
                     was = sorted(q for q, _ in (first_mem.get("invocations", []) + first_mem.get("dependencies", [])) if "callee" in q)
                     now = sorted(q for q, _ in (mm["invocations"] + mm["dependencies"]) if "callee" in q)
+                    if evolution == "reclustered_same_version" and cluster is None:
+                        # (not judged: a name recorded without cluster reads back with the cluster the function has now)
+                        now = sorted(q.replace("elsewhere::", "") for q in now)
                     if was and now != was:
                         fail("a reference inside stored metadata names another function after the code base evolved",
                              "%s stage %d: references %s, the entry was recorded with %s" % (label, stage, now, was))
@@ -442,7 +451,7 @@ def run_evolve(case, out, fail):
                 for qn, external in al[2]["fn_args"]:
                     out["obs"]["references_to_old_versions_checked"] += 1
                     out["obs"]["function_valued_arguments_read_back"] += 1
-                    if external != (evolution != "unchanged"):
+                    if external != (evolution not in ("unchanged", "reclustered_same_version")):
                         fail("a reference to a version that no longer exists is not reported as external"
                              if evolution != "unchanged" else "a reference to an existing version is reported as external",
                              "%s stage %d: function-valued argument %s external=%s" % (label, stage, qn, external))
